@@ -235,6 +235,141 @@ func runMirror(rr *RuleRun, prop string) {
 				pb = tb[i].pos
 			}
 		}
+		// One side may have been restructured (an early return, a merged condition, a temporary removed) without
+		// any change to what it computes. When the statement skeletons differ, compare what the two sides are
+		// made of instead: the same calls, operators and constants on both sides is agreement; a difference made
+		// only of relational names or operators is the one-sided edit this rule is about; anything else is not
+		// comparable and is recorded as such, not reported.
+		if skA, skB := mirrorSkeleton(ta), mirrorSkeleton(tb); skA != skB {
+			onlyA, onlyB := mirrorBagDiff(ta, tb)
+			onlyA, onlyB = mirrorCancelInversions(onlyA, onlyB)
+			if len(onlyA) == 0 && len(onlyB) == 0 {
+				rr.OK(key, fa.Pos(), "the two sides are written differently but are made of the same calls, operators and constants under the mirror map")
+				continue
+			}
+			relational := true
+			for _, t := range append(append([]string{}, onlyA...), onlyB...) {
+				if !mirrorRelationalTok(p, t) {
+					relational = false
+				}
+			}
+			if (len(onlyA) == 0) != (len(onlyB) == 0) {
+				// one side has everything the other has, and more: something is computed on one side only
+				rr.Violation(key, pb, fmt.Sprintf("%s and %s are written differently, and one of them has calls, operators or constants the other lacks altogether (only in the mirror of the first: %v; only in the second: %v): %s", p.A, p.B, onlyA, onlyB, p.Why))
+				continue
+			}
+			if !relational || len(onlyA) != len(onlyB) {
+				rr.Assumed(key, fa.Pos(), fmt.Sprintf("one side was restructured and the two are no longer comparable token by token (only in the mirror of %s: %v; only in %s: %v): no verdict", p.A, onlyA, p.B, onlyB))
+				continue
+			}
+			rr.Violation(key, pb, fmt.Sprintf("%s and %s are written differently, and the mirror of the first uses %v where the second uses %v: %s", p.A, p.B, onlyA, onlyB, p.Why))
+			continue
+		}
 		rr.Violation(key, pb, fmt.Sprintf("%s and %s stop being mirror images at %s (mirrored %q) vs %s (%q): %s", p.A, p.B, c.PosStr(pa), sa, c.PosStr(pb), sb, p.Why))
 	}
+}
+
+// mirrorStructural: tokens that render statement and expression shapes (as opposed to names, operators, constants).
+func mirrorStructural(t string) bool {
+	if t == "(" || t == ")" || t == "end" || t == "_" || t == "STR" || strings.HasPrefix(t, "assign") || strings.HasPrefix(t, "branch") || strings.HasPrefix(t, "incdec") {
+		return true
+	}
+	if len(t) > 1 && t[0] == 'v' && strings.Trim(t[1:], "0123456789") == "" {
+		return true // a local variable
+	}
+	switch t {
+	case "&&", "||":
+		return true // merged or split conditions
+	}
+	return len(t) > 4 && (strings.HasSuffix(t, "Stmt") || strings.HasSuffix(t, "Expr") || strings.HasSuffix(t, "Clause") || strings.HasSuffix(t, "Lit") || strings.HasSuffix(t, "Type") || t == "Field" || t == "FieldList" || t == "Ellipsis")
+}
+
+func mirrorSkeleton(ts []canonTok) string {
+	var b strings.Builder
+	for _, t := range ts {
+		if mirrorStructural(t.s) {
+			b.WriteString(t.s)
+			b.WriteByte(' ')
+		}
+	}
+	return b.String()
+}
+
+// mirrorBagDiff: the non-structural tokens that occur more often on one side than on the other.
+func mirrorBagDiff(ta, tb []canonTok) (onlyA, onlyB []string) {
+	cnt := map[string]int{}
+	for _, t := range ta {
+		if !mirrorStructural(t.s) {
+			cnt[t.s]++
+		}
+	}
+	for _, t := range tb {
+		if !mirrorStructural(t.s) {
+			cnt[t.s]--
+		}
+	}
+	var ks []string
+	for k := range cnt {
+		ks = append(ks, k)
+	}
+	sortStrings(ks)
+	for _, k := range ks {
+		for i := 0; i < cnt[k]; i++ {
+			onlyA = append(onlyA, k)
+		}
+		for i := 0; i < -cnt[k]; i++ {
+			onlyB = append(onlyB, k)
+		}
+	}
+	return
+}
+
+func mirrorRelationalTok(p mirrorPair, t string) bool {
+	switch t {
+	case "<", ">", "<=", ">=", "True", "False", "LessThan", "GreaterThan", "LessThanOrEqualTo", "GreaterThanOrEqualTo", "Equals":
+		return true
+	}
+	for k, v := range p.Names {
+		if t == k || t == v {
+			return true
+		}
+	}
+	return false
+}
+
+// mirrorCancelInversions: where one side was restructured, a condition may have been inverted on the way
+// (x != nil { A } else { B }  ↔  x == nil { B }; A): an == on one side against a != on the other, and a
+// stray negation, are part of the restructuring, not a difference in what is computed.
+func mirrorCancelInversions(a, b []string) ([]string, []string) {
+	cancel := func(a, b []string, x, y string) ([]string, []string) {
+		for {
+			i, j := indexOfStr(a, x), indexOfStr(b, y)
+			if i < 0 || j < 0 {
+				return a, b
+			}
+			a = append(append([]string{}, a[:i]...), a[i+1:]...)
+			b = append(append([]string{}, b[:j]...), b[j+1:]...)
+		}
+	}
+	a, b = cancel(a, b, "==", "!=")
+	a, b = cancel(a, b, "!=", "==")
+	drop := func(l []string, x string) []string {
+		var out []string
+		for _, t := range l {
+			if t != x {
+				out = append(out, t)
+			}
+		}
+		return out
+	}
+	return drop(a, "u!"), drop(b, "u!")
+}
+
+func indexOfStr(l []string, x string) int {
+	for i, t := range l {
+		if t == x {
+			return i
+		}
+	}
+	return -1
 }
